@@ -153,25 +153,32 @@ def funnel(repo, rep):
         rep.ok("R-FUNNEL", "Epoch.Epoch.get_full_date", "day fraction split with bases 24 / 60 / 60, matching the 24 / 1440 / 86400 folding of set()")
     else:
         rep.violation("R-FUNNEL", "Epoch.Epoch.get_full_date", "split", "day-fraction split is not (int(24 r), int(60 r'), 60 (60 r' - min)) of r = day % 1")
-    # D3 copy branch: under `isinstance(<first argument>, Epoch)` the stored JDE is read from the source's stored JDE and nothing
-    # else of the source is touched (the first argument may be named through a local alias)
-    ok = False
-    va = fn.args.vararg.arg if fn.args.vararg else "args"
-    first = {"%s[0]" % va}
-    for node in ast.walk(fn):
-        if isinstance(node, ast.Assign) and len(node.targets) == 1 and isinstance(node.targets[0], ast.Name) \
-                and norm_text(node.value).replace(" ", "") in first:
-            first.add(node.targets[0].id)
-    for node in ast.walk(fn):
-        if isinstance(node, ast.If) and any(norm_text(node.test).replace(" ", "") == "isinstance(%s,Epoch)" % f for f in first):
-            for s_ in node.body:
-                if isinstance(s_, ast.Assign) and any(norm_text(s_).replace(" ", "") == "self._jde=%s._jde" % f for f in first):
-                    ok = True
-            reads = {norm_text(x) for s_ in node.body for x in ast.walk(s_) if isinstance(x, ast.Attribute)
-                     and any(norm_text(x).startswith(f + ".") for f in first)}
-            if reads - {f + "._jde" for f in first}:
-                ok = False
-    if ok:
+    # D3 copy branch: under `isinstance(<source>, Epoch)` the stored JDE is read from the source's stored JDE and nothing else
+    # of the source is touched.  The branch may live in set() or in a helper split off from it; <source> is any plain name
+    # or args[0].
+    from ..rules import walk_with_helpers
+    ok = None
+    for node in walk_with_helpers(repo, MOD, fn):
+        if not isinstance(node, ast.If):
+            continue
+        tt = node.test
+        if not (isinstance(tt, ast.Call) and isinstance(tt.func, ast.Name) and tt.func.id == "isinstance" and len(tt.args) == 2
+                and norm_text(tt.args[1]) == "Epoch"):
+            continue
+        src = norm_text(tt.args[0]).replace(" ", "")
+        stores = [s_ for s_ in node.body if isinstance(s_, ast.Assign) and norm_text(s_).replace(" ", "") == "self._jde=%s._jde" % src]
+        reads = {norm_text(x).replace(" ", "") for s_ in node.body for x in ast.walk(s_) if isinstance(x, ast.Attribute)
+                 and norm_text(x).replace(" ", "").startswith(src + ".")}
+        if stores and not (reads - {src + "._jde"}):
+            ok = True if ok is None else ok
+        elif stores or reads:
+            ok = False
+    if ok is None:
+        rep.inconcl("R-FUNNEL", "Epoch.Epoch.set", "no `isinstance(x, Epoch)` copy branch recognised in set() or the helpers split off from it")
+        ok = "skip"
+    if ok == "skip":
+        pass
+    elif ok:
         rep.ok("R-FUNNEL", "Epoch.Epoch.set[copy]", "copy branch reads only args[0]._jde (a float: no shared state)")
     else:
         rep.violation("R-FUNNEL", "Epoch.Epoch.set", "copy-branch", "copy branch does not simply read the source's stored JDE")
